@@ -6,7 +6,10 @@ TECHNIQUE = ('table agreement between the writer and the readers of the shared e
              'case dispatch), slot-wise save/restore resolution of the label context, must-precede dataflow over the generate_execution_code methods, '
              'bracket/region analysis of the exception hand-off, stack-depth dataflow of the assignment collector; decision tables of trap_parallel_exit / '
              'end_parallel_control_flow_block obtained by interpreting their code in the checker over the complete domain (construct x set of exit kinds used); '
-             'C-semantics evaluation of the extracted trip-count / loop-header / index expressions over all residue classes of small strides')
+             'C-semantics evaluation of the extracted trip-count / loop-header / index expressions over all residue classes of small strides; event-trace analysis of the '
+             'emitted label skeleton and of the writer (insertion point in front of / code writer after the parallel region) of every exit-protocol emission; slot-flow '
+             '(def-use) analysis of the reduction operator from the in-place assignment to the sharing clause; decision tables of the node set-up methods '
+             '(range arguments, is_parallel, for-loop part transfer, thread-state bracket, return critical section) and of the clause emission of generate_loop')
 DECIDES = ('C37-WHY: the exit code trap_parallel_exit stores into parallel_why for each of continue/break/return/error (index in FunctionState.get_all_labels() '
            'order + the offset in the emitted `%d`) equals the `case N:` that end_parallel_control_flow_block dispatches to that kind of label; codes are distinct and '
            'non-zero; the "prefer error" store after `if (parallel_exc_type)` writes the error code; every emitted `if (parallel_why <op> N)` guard runs its body '
@@ -30,17 +33,38 @@ DECIDES = ('C37-WHY: the exit code trap_parallel_exit stores into parallel_why f
            'C37-TRIP (sa/rules/sC37.py): start/stop/step are stored under their own keys of the format dict with defaults 0/-/1; for the step absent, a literal or a run-time '
            'value in {+-1, +-2, +-3, +-5}, every path of generate_execution_code (Python-level special-casing on the step included) emits an nsteps computation which, '
            'with the `if (nsteps > 0)` guard, the emitted for header and the emitted index formula, runs exactly the iterations of range(start, stop, step) for every '
-           'distance in [-3|step|-2, 3|step|+2] (all residues, empty and reversed ranges) - so reductions see every term and the lastprivate index ends at the last index.')
+           'distance in [-3|step|-2, 3|step|+2] (all residues, empty and reversed ranges) - so reductions see every term and the lastprivate index ends at the last index. '
+           'C37-SEQ (sa/rules/sC37.py): for both constructs x the 15 non-empty sets of exit kinds the C skeleton emitted by trap_parallel_exit is `goto J; (L_k: [fetch;] why = code_k; goto J;)* J:` '
+           '- the normal path jumps over the label blocks, no block falls through into the next, every trapped label that must be propagated stores its own code (a prange `continue` is '
+           'exempt: direct jump); the declaration/zeroing of the exit code is written through the insertion point captured in front of the parallel region, the prefer-error fix-up and '
+           'the dispatch switch through the code writer after it, and the C condition around the switch is true for every stored code; each `if (why < N)` guard is written in front of '
+           'the code it guards (insertion point taken, or emission made, before the body / else clause is generated). '
+           'C37-FLOW (sa/rules/sC37.py): visit_InPlaceAssignmentNode passes node.operator to the operator parameter of mark_assignment; mark_assignment stores that parameter in the '
+           'slot of <node>.assignments[entry] that analyse_sharing_attributes hands to the operator parameter of propagate_var_privatization; that parameter is what is stored in '
+           'self.privates[entry] and what the recursive call to the enclosing construct receives; ParallelRangeNode.analyse_expressions registers the loop variable (operator None) '
+           'before the sharing analysis; generate_loop, interpreted per (parallel-for / for-in-team) x (loop variable / assigned variable) x in-place operator, emits lastprivate(var) for the '
+           'loop variable and for assigned C variables and reduction(op:var) for + - * & | ^ (C37-RED reads the set of reducing operators from the same table). '
+           'C37-NODE (sa/rules/sC37.py): ParallelRangeNode.analyse_declarations binds 1/2/3 positional arguments as (stop) / (start, stop) / (start, stop, step) - the signature documented '
+           'in docs/src/userguide/parallelism.rst; MarkParallelAssignments.visit_ParallelStatNode over node kind x parent kind: a prange inside `with parallel()` gets is_parallel False, '
+           'top-level constructs and with-blocks True, node.parent is the innermost enclosing construct, the prange body is visited while the node is on the stack; '
+           'ParallelRangeTransform.visit_ForInStatNode hands every child attribute shared by ForInStatNode and ParallelRangeNode (target, body, else_clause) to the replacing node; '
+           'end_parallel_block over error_label_used x acquire_gil emits the put_ensure_gil / put_release_ensured_gil bracket whenever either holds; visit_ReturnStatNode marks returns '
+           'inside a region and ReturnStatNode.generate_execution_code then stores the return value inside the `omp critical` block for every return-type class.')
 NOT_DECIDED = ('everything schedule-dependent: that reductions/lastprivate give sequential results for every thread count, schedule and chunk size; the nsteps/index '
                'arithmetic for strides beyond the enumerated moduli and for C integer overflow / the int-typed abs() on wide index types; absence of data races in user bodies; the OpenMP flush placement; privatisation of temporaries (privatize_temps) and of closure '
                'variables; which of several simultaneously raised exceptions wins.  The LIFO order of GIL vs free-threading lock is not required (only that the '
-               'transfer is inside both).  The firstprivate/lastprivate clause emission is not checked (it could only be matched as frozen text).')
+               'transfer is inside both).  The firstprivate clause, the private/firstprivate classification of temporaries (privatize_temps), the shared() clause and the '
+               'flush placement are not checked; C37-FLOW decides the presence of lastprivate/reduction clauses per variable class, not their position inside the pragma line.')
 ASSUMPTIONS = ['CCodeWriter label accessors forward to FunctionState (checked, ANALYSIS-ERROR otherwise)',
                'OpenMP reduction identifiers: OpenMP 5.2 section 5.5.5, implicitly declared identifiers for C/C++ (frozen in sa/rules/pC37.py)',
                'C37-EMIT: an unknown iterable is taken to run its loop body zero times or once; helper methods that mention parallel_why/parallel_exc are interpreted '
                'in place when they have a single path, otherwise an unmet obligation is reported as ANALYSIS-ERROR, not as a violation',
                'C37-TRIP: the value of the format-dict entry %(x)s is the C value of prange argument x (checked through the zip() that fills it); a literal step has '
-               'has_constant_result() true and constant_result = its value, a run-time step has has_constant_result() false']
+               'has_constant_result() true and constant_result = its value, a run-time step has has_constant_result() false',
+               'C37-NODE: prange([start,] stop[, step]) as documented in docs/src/userguide/parallelism.rst (range() convention when the file is absent); a prange nested in a prange '
+               'is compiled out (`#if 0`), so its is_parallel flag is not constrained',
+               'C37-FLOW: OpenMP 5.2: a list item assigned in a worksharing loop and read after it needs lastprivate; + - * & | ^ are the implicitly declared reduction identifiers '
+               'whose combiner equals the Python in-place operator (table in sa/rules/pC37.py)']
 EXEMPT = {}
 
 # Single-edit variants tried on a scratch copy: (file, edit, rule/construct that reported it).  All 27 breaking edits were
@@ -109,7 +133,25 @@ SILENT_EDITS = [   # behaviour-preserving, all stayed silent (exit 0)
     'prefer-error fix-up moved into a helper method self._prefer_error(code) (C37-EMIT silent; the older C37-WHY why:prefer-error does fire on this one)',
 ]
 
+MUTATIONS += [   # fourth round: brainstormed mutants, kept as patches under mutants/C37/ and replayed by the thorough tier (34 breaking, all reported)
+    ('Cython/Compiler/Nodes.py', 'trap: continue not registered for parallel blocks / closing goto of a label block dropped / leading goto dropped / code stored only for non-error labels', 'C37-SEQ seq:store, seq:no-fallthrough, seq:skip'),
+    ('Cython/Compiler/Nodes.py', 'end block: `why = 0` through `code` / prefer-error fix-up through `c` / dispatch under `if (!why)`; generate_loop: body guard through `code` after the body', 'C37-SEQ place:init, place:prefer-error, place:dispatch, place:guard'),
+    ('Cython/Compiler/TypeInference.py', 'in-place operator not passed / stored as None; Nodes.py: privates[entry] = None, propagate(entry, op, pos), recursion with None, target not registered', 'C37-FLOW flow:*'),
+    ('Cython/Compiler/Nodes.py', 'generate_loop: lastprivate clause dropped; reduction test `entry == self.target.entry`; "+*-&^|/"', 'C37-FLOW flow:clause:*, C37-RED red:/'),
+    ('Cython/Compiler/Nodes.py', 'analyse_declarations: (stop, start) for two arguments, single argument as start, step unpacked into `_`', 'C37-NODE node:range-args:N'),
+    ('Cython/Compiler/TypeInference.py', 'is_parallel = True for a prange in a with-block / False for a with-block; body not visited; in_parallel = False for returns', 'C37-NODE node:is-parallel, node:body-visited, node:return:marked'),
+    ('Cython/Compiler/ParseTreeTransforms.py', 'visit_ForInStatNode: else_clause / body not copied', 'C37-NODE node:transfer:*'),
+    ('Cython/Compiler/Nodes.py', 'end_parallel_block only `if self.acquire_gil:` / release dropped; return critical section only for non-refcounted types', 'C37-NODE node:threadstate, node:return:critical'),
+]
+SILENT_EDITS += [   # fourth round (15 rewrites, all silent after three rules were repaired: C37-WHY followed no extracted helper, C37-EXC no unrolled loop, C37-RED read the guard text)
+    'per-label block of trap_parallel_exit extracted into a helper method; end block: any_label_used as conditional expression computed first',
+    'fetch: tuple-unpacked slot names in f-strings, position info copied in a `for ... in zip(...)` loop',
+    'generate_loop: reduction/private decision with `continue` and a local flag; sorted privates held in a local; guard insertion point renamed',
+    '`int why = 0;` as one statement; dispatch under `if (why != 0) {`',
+    'range arguments by indexing; part transfer by a setattr/getattr loop; is_parallel by if/else; stack handling with locals; operator passed by keyword; loop variables renamed',
+]
+
 
 def run(ctx):
     return [pC37.rule_why(ctx), pC37.rule_labels(ctx), pC37.rule_handoff(ctx), pC37.rule_stack(ctx), pC37.rule_reductions(ctx),
-            sC37.rule_emit(ctx), sC37.rule_trip(ctx)]
+            sC37.rule_emit(ctx), sC37.rule_trip(ctx), sC37.rule_seq(ctx), sC37.rule_node(ctx), sC37.rule_flow(ctx)]
